@@ -104,9 +104,10 @@ private:
     HandshakeHandler handshake_handler_{};
 
     std::atomic<bool> running_{false};
-    SocketHandle listen_socket_{INVALID_SOCKET_HANDLE};
+    // written by start()/stop(), read by the accept thread and by session threads
+    std::atomic<SocketHandle> listen_socket_{INVALID_SOCKET_HANDLE};
     std::thread accept_thread_;
-    std::uint16_t bound_port_{0};
+    std::atomic<std::uint16_t> bound_port_{0};
 
     mutable std::mutex sessions_mutex_;
     std::unordered_map<std::string, std::shared_ptr<Session>> sessions_;
